@@ -70,11 +70,19 @@ end FEng
 def GEng.init (stream keyed : Bool) (m : Mode) (scripts : Nat → List Step) : Eng Grp :=
   { w := World.init m 0 scripts, s := Grp.init stream keyed }
 
+/-- final engine state of a fixed-children case -/
+def Case.finalFix (c : Case) : Eng Fix :=
+  c.ops.foldl (FEng.step c.fam.policy) (FEng.init c.fam c.mode c.n c.scripts)
+
+/-- final engine state of a group case -/
+def Case.finalGrp (c : Case) : Eng Grp :=
+  c.ops.foldl GEng.step (GEng.init (c.fam = .strGroup) c.keyed c.mode c.scripts)
+
+/-- the event trace of a case, NEWEST FIRST (the form the monitors take) -/
+def Case.trace (c : Case) : List Ev :=
+  if c.fam.isGroup then c.finalGrp.w.trace else c.finalFix.w.trace
+
 /-- the event trace (oldest first) of a case -/
-def Case.run (c : Case) : List Ev :=
-  match c.fam with
-  | .futGroup => ((c.ops.foldl GEng.step (GEng.init false c.keyed c.mode c.scripts)).w.trace).reverse
-  | .strGroup => ((c.ops.foldl GEng.step (GEng.init true c.keyed c.mode c.scripts)).w.trace).reverse
-  | f => ((c.ops.foldl (FEng.step f.policy) (FEng.init f c.mode c.n c.scripts)).w.trace).reverse
+def Case.run (c : Case) : List Ev := c.trace.reverse
 
 end Fc
